@@ -242,6 +242,10 @@ func checkC12(p *Prog, r *Report) {
 
 	r.Rule("R4", "every approval callback is started exactly once per write: one go statement per element of the callback list, unconditionally, under the lock guarding the list")
 	startFns := callbackTriggers(p, "writeApprovalCallbacks")
+	isHandle := map[*ssa.Function]bool{}
+	for _, fn := range p.ImplsOf(fli, "HandleMessage") {
+		isHandle[fn] = true
+	}
 	for fn := range startFns {
 		nGo := 0
 		ok := true
@@ -259,6 +263,9 @@ func checkC12(p *Prog, r *Report) {
 					if _, isLen := bo.Y.(*ssa.Call); isLen {
 						continue
 					}
+				}
+				if isHandle[fn] && gd.If != nil && !cyclic(gd.If.Block()) {
+					continue // loop inlined into the dispatcher: its conditions before the loop are R5's and the path engine's
 				}
 				ok = false
 			}
@@ -301,6 +308,13 @@ func checkC12(p *Prog, r *Report) {
 				}
 			}
 		})
+		if startFns[fn] { // started inline
+			forEachCall(fn, func(site ssa.CallInstruction) {
+				if g, isGo := site.(*ssa.Go); isGo && strings.Contains(Path(g.Call.Value), "."+FN("FeatureLocal.writeApprovalCallbacks")+"[]") {
+					start = g
+				}
+			})
+		}
 		if arm == nil && start == nil {
 			continue // node management delegates nothing here
 		}
@@ -310,7 +324,7 @@ func checkC12(p *Prog, r *Report) {
 			guarded := false
 			for _, g := range Guards(start.Block()) {
 				if bo, isB := g.Cond.(*ssa.BinOp); isB && bo.Op == token.GTR && g.Val {
-					if c, isC := bo.X.(*ssa.Call); isC && builtinName(&c.Call) == "len" && strings.HasSuffix(Path(c.Call.Args[0]), "."+FN("FeatureLocal.writeApprovalCallbacks")) {
+					if k, isK := constInt(bo.Y); isK && k == 0 && isApprovalCallbackCount(bo.X, 0) {
 						guarded = true
 					}
 				}
